@@ -480,10 +480,9 @@ impl PartialEq for JsStr<'_> {
 impl PartialEq<str> for JsStr<'_> {
     #[inline]
     fn eq(&self, other: &str) -> bool {
-        match self.variant() {
-            JsStrVariant::Latin1(v) => v == other.as_bytes(),
-            JsStrVariant::Utf16(v) => other.encode_utf16().zip(v).all(|(a, b)| a == *b),
-        }
+        // Compare as sequences of UTF-16 code units, whatever the internal encoding:
+        // `Iterator::eq` also requires both sides to have the same length.
+        self.iter().eq(other.encode_utf16())
     }
 }
 
